@@ -38,15 +38,6 @@ Theorem c09_l2_quiescent : forall s,
 Proof. exact (l2_quiescent fo fc pool0 Hpool). Qed.
 End C09L2.
 
-(* C08, last sentence: once the (only) SetConfigThreadSafe has returned, every later read of the
-   overrides -- hence every call that starts afterwards -- sees the new values *)
-Theorem c08_l2_takes_effect : forall fo fc pool0 i fc' fo' s t,
-  all_fresh_t pool0 -> nth_error pool0 i = Some (tthread0 (KSet fc' fo')) ->
-  (forall j u, nth_error pool0 j = Some u -> j <> i -> is_set u = false) ->
-  reach tstep (tinit fo fc, pool0) s -> nth_error (snd s) i = Some t -> th_done t = true ->
-  t_fo (fst s) = fo' /\ t_fc (fst s) = fc'.
-Proof. exact l2_takes_effect. Qed.
-
 (* non-vacuity: two racing OpenCircuit calls, the loser finds the transition already made *)
 Example c09_l2_example :
   let '(tr, fin, ok) := replay tstep [0;1;0;1;0;1;0;1;0;0;0;0;0;1;1;1;1;0]%nat (tinit false false) [tthread0 KOpen; tthread0 KOpen] in
@@ -57,5 +48,4 @@ Print Assumptions c09_l2_alternate.
 Print Assumptions c09_l2_mutex.
 Print Assumptions c09_l2_mirror.
 Print Assumptions c09_l2_quiescent.
-Print Assumptions c08_l2_takes_effect.
 Print Assumptions c09_l2_example.
